@@ -10,6 +10,9 @@
 //  2. live.go   the same pair with a working link, idle for 5*(I+T) and with an application sender on
 //     either side at every phase offset, explored with thread-choice deviations.
 //  3. narrow.go the real server socket against a hand-played client that withholds pong k.
+//  4. upgrade.go the live pair upgrades to the duplex pipe of rig R4 with a ping due at every phase of the upgrade.
+//  5. pending.go the client is dialed with Transports=[polling, websocket]: the upgrade attempt eio.Dial itself
+//     starts is pending (never answered / failing later) when the link becomes a black hole, at every instant.
 package main
 
 import (
@@ -63,6 +66,12 @@ func scenarios(tier string) []*vx.Scenario {
 			s = append(s, upgradeScenario(uc, bound))
 		}
 	}
+	// part 5: the peer goes silent while the upgrade attempt that eio.Dial itself started is pending
+	for _, c := range exploredConfigs(tier) {
+		for _, pc := range exploredPendCases(c) {
+			s = append(s, pendScenario(pc, bound))
+		}
+	}
 	if hasArg("replay") {
 		// every scenario of either tier and every enumerated case is addressable by name, so that
 		// `-replay <file>` can re-execute it alone
@@ -86,6 +95,9 @@ func scenarios(tier string) []*vx.Scenario {
 			}
 			for _, uc := range upgradeCases(c, "thorough") {
 				more = append(more, upgradeScenario(uc, 0))
+			}
+			for _, pc := range pendCases(c) {
+				more = append(more, pendScenario(pc, 0))
 			}
 		}
 		for _, sc := range more {
@@ -209,6 +221,28 @@ func enumerated(tier string, r *vx.Report) {
 	}
 	r.Extra["heartbeat_inside_upgrade_alignments"] = nUp
 
+	// ---- part 5: the link dies (or not) while the client's own upgrade request is pending, every death instant
+	nPend, nPendOK := 0, 0
+	for _, c := range enumConfigs() {
+		for _, pc := range pendCases(c) {
+			sc := pendScenario(pc, 0)
+			pc.Cfg = c.String()
+			res, ok := runCase(sc, tier, pc, r, false)
+			if !ok {
+				continue
+			}
+			nPend++
+			outcomes[sc.Name+"|"+res.Outcome] = true
+			if len(res.Violations) == 0 {
+				nPendOK++
+			}
+			if pc.Fate == "hangs" && pc.Dir == "both" && pc.J == 0 && len(samples) < 4 {
+				samples = append(samples, map[string]any{"part": "dead peer while the client's own upgrade request is pending (one execution, default schedule)", "case": sc.Name, "observed": res.Outcome})
+			}
+		}
+	}
+	r.Extra["upgrade_request_pending_cases"] = map[string]any{"cases": nPend, "as_required": nPendOK}
+
 	// ---- duplicated pong: observation only
 	var worst time.Duration
 	worstCase, nDup, nLate := "", 0, 0
@@ -287,8 +321,8 @@ func enumerated(tier string, r *vx.Report) {
 		r.Sample(s)
 	}
 	r.Sample(map[string]any{"part": "duplicated pong (observation only)", "case": worstCase, "observed": fmt.Sprintf("death noticed %v later than pingInterval+pingTimeout after the last pong", worst)})
-	r.DistinctNontriv += nDead + nNarrow + nDup + nSlow + nUp
-	r.States += nDead + nNarrow + nDup + nSlow + nUp
+	r.DistinctNontriv += nDead + nNarrow + nDup + nSlow + nUp + nPend
+	r.States += nDead + nNarrow + nDup + nSlow + nUp + nPend
 	r.DistinctOutcomes += len(outcomes)
 }
 
@@ -304,6 +338,7 @@ func main() {
 			"plus a subset (first pong POST, the poll after it, the tie t=I, a parked long poll) explored with thread-choice deviations from the fault on. " +
 			"Live peer: idle for 5*(I+T), a sender on either side at phase 0, I/4, I/2, 3I/4 of the ping schedule, and the same with a latency of T/8 per leg, explored with thread-choice deviations over the whole run (quick: bound 1; thorough: bound 2, except that a sender firing at the very instant of every ping gets bound 1 over the whole run plus bound 2 inside a window of three heartbeat periods; the dead-peer subset is explored to bound 3 / 4, the heartbeat-inside-an-upgrade alignments to bound 2 / 3). " +
 			"Upgrade: the live pair upgrades to a duplex pipe (rig R4, the real upgrade state machines) with latency L=T/10 per leg on the pipe and 0 or L on the polling link, started so that ping 1 (and 2) comes due k*L/2 after the start of the upgrade for k=-2..9 (before, inside every phase of, on every boundary of and after the upgrade), one execution each for all nine configurations plus thread-choice deviations from the start of the upgrade on for the explored configurations. " +
+			"Upgrade request pending: the client is dialed with Transports=[polling, websocket], so the upgrade attempt that eio.Dial itself starts (connect -> maybeUpgrade, the real websocket.ClientTransport dialing through a RoundTripper of the harness) is in flight - never answered, or failing with a connect timeout I/2 after the death - when the polling link is black-holed (both directions / responses only) at the moment the upgrade request leaves and j*I/4 later for j=1..8, or never (live peer); one execution each for all nine configurations plus thread-choice deviations from the death on for a subset (death at the request, at I/2, at the tie t=I) in the explored configurations; same dead-peer oracle as part 1. " +
 			"Narrow: the server socket against a hand-played polling client that withholds pong k=1..3 after answering the earlier ones with delay 0, T/2, T-1ms. " +
 			"distinct_nontrivial = deviating schedules + enumerated fault positions in which the fault was injected + narrow cases",
 		Scenarios: scenarios,
@@ -317,6 +352,7 @@ func main() {
 		Assumptions: []string{
 			"vsched semantics of Go primitives; virtual time advances only at quiescence, so 'scheduling slack' is zero and the bound checked is the exact pingInterval+pingTimeout after the instant the link died",
 			"rig R3: an in-process RoundTripper stands in for TCP; a dead link = requests that hang forever (no RST, no client-side HTTP deadline), so the client has no transport-level signal and must report 'ping timeout'",
+			"a client dialed with Transports=[polling, websocket] whose WebSocket upgrade request is held by the network: the request never reaches the server, hangs for ever or fails locally (connect timeout); a WebSocket that is established and then stalls is not modelled (nhooyr's byte transport is not under the scheduler)",
 			"polling transport, and the duplex pipe of rig R4 (a reliable ordered message pipe with latency) as the transport upgraded to; the nhooyr WebSocket / QUIC byte transports themselves are not under the scheduler",
 			"with only the responses black-holed the client's CLOSE packet may reach the server at the very instant the server's own pong timer fires; 'transport close' is then accepted on the server if and only if that packet demonstrably arrived first; the time bound applies regardless",
 			"duplicated pongs (misbehaving peer) are observed, not judged",
